@@ -18,9 +18,10 @@ import Gv.Proofs.PhaseAlignNT
 
 * the aligner behind phasing (`Gv.Model.PhaseAlign`: `ALIGN_ALGO_ATG`, `alignAgainstRefsNT`), from the C09 fill
   lemmas: `atg_verbatim_aligned_at_occurrence_partial`, `phase_nt_verbatim_trimmed_at_orf_start_partial` and its
-  two instances (match/mismatch scores; default DNAfull scores on A/C/G/T); two run-time panics of the code as
-  kernel-checked facts about the model: `phase_nt_panics_without_positive_alignment`,
-  `phase_nt_panics_on_slice_bounds`.
+  two instances (match/mismatch scores; default DNAfull scores on A/C/G/T); what the repaired code returns
+  where the first shipped code panicked: `phase_nt_removed_is_untrimmed_input`,
+  `phase_nt_without_positive_alignment_is_removed`, `phase_nt_hit_shorter_than_frame_shift_reports_error`;
+  `atg_aligner_never_panics`.
 
 Partial: the clause "a sequence containing the reference ORF verbatim once is trimmed at its start" is proved
 for the nucleotide mode (`phasent`), ONE reference, gap penalties
@@ -543,20 +544,45 @@ example :
         some [77, 75, 42]⟩ ⟨false, 0, 2, 10⟩ :=
   ⟨once_of_occurrences _ _ 2 (by decide) (by decide), by decide⟩
 
-/-! ### two inputs on which the worker goroutine of `Phase` panics (the process dies) -/
+/-! ### no positive alignment, and a hit shorter than its frame shift
+
+Before `proposed_fixes/c16-phaser-no-positive-alignment.diff` / `c16-phaser-frame-shift-bounds.diff` both were
+run-time panics of the worker goroutine (nil dereference of `bestseq`; slice `[2:1]`).  The model mirrors the
+repaired code. -/
+
+/-- **a sequence that no reference aligns to with a positive score comes back as a removed result carrying the
+untrimmed input** (position 0, nucleotides = codons = the input, no amino acids) — for all settings, references
+and sequences: this is the only way `phaseNT` produces a removed result -/
+theorem phase_nt_removed_is_untrimmed_input (c : NTCfg) (code : List (List Byte × Byte)) (orfs : List Seq)
+    (seq : Seq) (p : Phased) (h : phaseNT c code orfs seq = NTOut.removed p) :
+    p = ⟨0, seq, seq, some []⟩ := by
+  simp only [phaseNT] at h
+  split at h
+  · simp at h
+  · simp at h
+  · split at h
+    · simp only [NTOut.removed.injEq, noHit] at h; exact h.symm
+    · repeat' split at h
+      all_goals simp at h
 
 set_option maxRecDepth 100000 in
-/-- **no alignment anchored at the reference's start scores above 0** (`ATG` against `CC`, default settings):
-`bestseq` stays `nil` and `bestseq.Name()` dereferences it.  The property promises one result per input
-"unless an alignment error is reported"; the code reports no error, it crashes. -/
-theorem phase_nt_panics_without_positive_alignment :
-    phaseNT {} Gen.standardcode [[65, 84, 71]] [67, 67] = NTOut.panic := by decide
+/-- `ATG` against `CC`, default settings: no alignment anchored at the reference's start scores above 0; the
+result is removed (the unrepaired code dereferenced the nil `bestseq`) -/
+theorem phase_nt_without_positive_alignment_is_removed :
+    phaseNT {} Gen.standardcode [[65, 84, 71]] [67, 67] = NTOut.removed ⟨0, [67, 67], [67, 67], some []⟩ := by
+  decide
 
 set_option maxRecDepth 100000 in
-/-- **the hit is shorter than the frame shift** (`ATG` against `T`, `--gap-open -1`): the alignment `AT` / `-T`
-has one leading gap, so `phase = 2`, and `bestseq.SequenceChar()[beststart+phase : bestend]` is `[2:1]` -/
-theorem phase_nt_panics_on_slice_bounds :
-    phaseNT { gapopen := -2 } Gen.standardcode [[65, 84, 71]] [84] = NTOut.panic := by decide
+/-- `ATG` against `T` with `--gap-open -1`: the alignment `AT` / `-T` has one leading gap, so `phase = 2` exceeds
+the one trimmed nucleotide; the codon sequence is empty and its translation is refused — an error is reported
+(`aa = none`), as for every codon sequence shorter than a codon (the unrepaired code sliced `[2:1]`) -/
+theorem phase_nt_hit_shorter_than_frame_shift_reports_error :
+    phaseNT { gapopen := -2 } Gen.standardcode [[65, 84, 71]] [84] =
+      NTOut.ok ⟨0, [84], [], none⟩ ⟨false, 1, 0, 0⟩ := by decide
+
+/-- the repaired `ALIGN_ALGO_ATG` aligner never panics (index out of range), for all sequences and scores -/
+theorem atg_aligner_never_panics (a : Aligner) (s1 s2 : Seq) : alignATG a true s1 s2 ≠ AtgOutcome.panic :=
+  alignATG_never_panics a s1 s2
 
 end verbatim
 
